@@ -44,6 +44,9 @@ checks["C12"] = (MC,
     "blanks/tabs/comments (also block comments with a line break)/blank lines/CRLF/final-newline variants; acceptance and emitted bytes must equal those of the "
     "original layout for both targets; a second harness inserts 1..2 symbolic bytes over {blank, tab} at every gap of the "
     "hand-written seeds (the lexer runs on the symbolic bytes); rejected programs are seeds too (acceptance must not change)",
+    "reduced strength: the layouts are explored by explicit nondeterministic choice in the executor and outputs are compared "
+    "syntactically - no solver query is needed for the menu-driven harness (evidence reports 0), only the symbolic-blanks harness "
+    "runs the lexer on symbolic bytes (decided by the byte-domain procedure); "
     "trusted: host-side token splitter that defines token-preserving re-layouts; differences are re-confirmed on the "
     "native build; outside: layouts not in the menus, windows wider than 2 gaps (quick: 70 sampled gaps of the short test programs, thorough: 600 of all)",
     "SSA execution of lexer+parser+both back-ends on re-laid-out sources (explicit nondeterministic layout choice), byte equality of outputs")
@@ -102,6 +105,8 @@ EXTRA_CHECKS["C16"] = (MC,
     "accepted by ShSem's grammar (and `bash -n` on a sample and on every rejected script); Batch: structural invariants "
     "on the emitted text (balanced parentheses, every goto/call target defined once, helpers present iff used, loop/if "
     "jumps inside their construct)",
+    "reduced strength: construct sequences are explored by explicit nondeterministic choice in the executor and the assertions "
+    "are structural predicates on concrete emitted text - no solver query is involved (evidence reports 0); "
     "trusted: ShSem's parser as Bash grammar of the emitted subset, the structural analysis of Batch text (label naming "
     "as emitted); issues are re-checked on the native build's output; outside: programs not expressible with the menu "
     "(2 slots quick / 3 thorough)",
